@@ -25,12 +25,14 @@ type cliFlags struct {
 	F, r       int
 }
 
-type presetDoc struct{ dialect, m, l, p, c int }
+type presetDoc struct{ dialect, m, l, p, c, d int }
 
 // the preset table AS DOCUMENTED in README.md (used only to fill in the predefined names of the programs)
 var presetsDoc = map[string]presetDoc{
-	"nop94": {94, 8000, 100, 8000, 80000}, "88": {88, 8000, 100, 8000, 80000}, "icws": {88, 8192, 300, 8000, 100000},
-	"noptiny": {94, 800, 20, 800, 8000}, "nop256": {94, 256, 10, 60, 2560}, "nopnano": {94, 80, 5, 80, 800},
+	// (the minimum distance is not in the README table; it equals the length except for icws, where the preset table of
+	// the library says 100)
+	"nop94": {94, 8000, 100, 8000, 80000, 100}, "88": {88, 8000, 100, 8000, 80000, 100}, "icws": {88, 8192, 300, 8000, 100000, 100},
+	"noptiny": {94, 800, 20, 800, 8000, 20}, "nop256": {94, 256, 10, 60, 2560, 10}, "nopnano": {94, 80, 5, 80, 800, 5},
 }
 
 func (f cliFlags) args() []string {
@@ -83,7 +85,7 @@ func (f cliFlags) json() string {
 func (f cliFlags) progCfg() prog {
 	if f.preset != "" {
 		d := presetsDoc[f.preset]
-		return prog{Dialect: d.dialect, M: d.m, L: d.l, P: d.p, D: d.l}
+		return prog{Dialect: d.dialect, M: d.m, L: d.l, P: d.p, D: d.d}
 	}
 	d := 94
 	if f.eight {
@@ -252,7 +254,10 @@ func cmdCLI(args []string) {
 				hi = lo
 			}
 			f.F = lo + r.Intn(hi-lo+1)
-			if f.F == 0 {
+			if r.Intn(4) == 0 {
+				f.F = s - 1 - r.Intn(l) // warrior 2 wraps past the last address
+			}
+			if f.F <= 0 {
 				f.F = lo
 			}
 			fixed++
@@ -305,6 +310,19 @@ func cmdCLI(args []string) {
 				cd.Items = []item{insItem("DJN", "", "", 0, "#", n1), insItem("DJN", "", "", -1, "#", 2), insItem("DAT", "", "#", 0, "#", 0)}
 				f.F = d.m / 2
 				emit(f, []prog{cd, park(cfg)})
+			}
+			// (f) the predefined names under the preset: a bomber that aims with each of them at a parked opponent
+			for _, nm := range []string{"MINDISTANCE", "MAXLENGTH", "MAXPROCESSES", "CORESIZE"} {
+				val := map[string]int{"MINDISTANCE": d.d, "MAXLENGTH": d.l, "MAXPROCESSES": d.p, "CORESIZE": d.m}[nm]
+				aim := cfg
+				// mov bomb, <name>-7  : hits the cell (val - 7) ahead of the mov
+				aim.Items = []item{{T: "ins", Op: "MOV", A: []tok{num(2)}, B: []tok{sym(nm), op("-"), num(7)}, HasB: true}, insItem("JMP", "", "", 0, "", 0), insItem("DAT", "", "#", 0, "#", 0)}
+				f3 := f
+				f3.F = ((val-7)%d.m + d.m) % d.m
+				if f3.F < 3 {
+					continue
+				}
+				emit(f3, []prog{aim, park(cfg)})
 			}
 			// (e) '94 presets given together with -8: the flag is documented to be ignored, so '94-only code still assembles
 			if d.dialect == 94 {
